@@ -391,6 +391,7 @@ class IdentityCounter:
 
 class KeyrefCounter(IdentityCounter):
     identity: XsdKeyref
+    refer: Optional[Union[XsdKey, XsdUnique]] = None
 
     def __init__(self, identity: XsdIdentity, elem: ElementType) -> None:
         super().__init__(identity, elem)
